@@ -24,7 +24,10 @@ Inductive xcase :=
 | XIvkNt (t : otab) (net : N) (i : dinput) (o : outcome (uivk * (bytes * bytes)) derr)
 (* the same profile: to_unified_incoming_viewing_key().encode() of a decoded UFVK — the item
    list of the derived UIVK *)
-| XNarrowNt (t : otab) (k : ufvk) (o : outcome (list item) unit).
+| XNarrowNt (t : otab) (k : ufvk) (o : outcome (list item) unit)
+(* UnifiedAddress::try_from + to_zcash_address in the profile without `orchard`: the address as
+   that build holds it (no Orchard receiver, raw unknown items) and the re-encoded receiver list *)
+| XUaNs (t : otab) (items : list item) (o : outcome (uaddr * list item) unit).
 
 Definition ua_model (t : otab) (items : list item) : outcome (uaddr * list item) unit :=
   match ua_try_from (doa_of t) (dsa_of t) items with
@@ -45,6 +48,13 @@ Definition narrow_spec (t : otab) (k : ufvk) : list item :=
   oapp (option_map (fun b => (2, look_bytes t 5 b 0)) (fvk_s k))
   ++ oapp (option_map (fun b => (3, look_bytes t 4 b 0)) (fvk_o k)).
 
+Definition ua_model_ns (t : otab) (items : list item) : outcome (uaddr * list item) unit :=
+  match ua_try_from_ns (dsa_of t) items with
+  | Ok a => match ua_to_items a with Ok l => Ok (a, l) | _ => Panic end
+  | Err e => Err e
+  | Panic => Panic
+  end.
+
 Definition xrun (c : xcase) : bool :=
   match c with
   | XUa t items o => outcome_eqb (pair_eqb uaddr_eqb items_eqb) unit_eqb (ua_model t items) o
@@ -55,6 +65,7 @@ Definition xrun (c : xcase) : bool :=
       outcome_eqb (pair_eqb uivk_eqb enc_eqb) derr_eqb
         (with_reenc (uivk_encode net) (uivk_decode_nt (orc_of t) net i)) o
   | XNarrowNt t k o => outcome_eqb items_eqb unit_eqb (narrow_model t k) o
+  | XUaNs t items o => outcome_eqb (pair_eqb uaddr_eqb items_eqb) unit_eqb (ua_model_ns t items) o
   end.
 
 (** some shielded receiver of the list is rejected by its primitive decoder *)
@@ -95,6 +106,16 @@ Definition xprop (c : xcase) : bool :=
       | Err _ => false
       | Panic => negb (is_some (fvk_s k) || is_some (fvk_o k))   (* nothing to encode *)
       end
+  | XUaNs t items o =>
+      (* no Orchard receiver is reported; the receiver list (the opaque Orchard item included,
+         under typecode 3) and its re-encoding are the input list *)
+      match o with
+      | Ok (a, re) =>
+          negb (is_some (uad_o a))
+          && (if tab_canonical t then items_eqb (ua_receivers a) items && items_eqb re items else true)
+      | Err _ => some_rejected t items
+      | Panic => tab_has_panic t
+      end
   end.
 
 Definition xtag (c : xcase) : N :=
@@ -119,4 +140,11 @@ Definition xtag (c : xcase) : N :=
   | XNarrowNt _ k o =>
       6300 + (match fvk_unknown k with [] => 0 | (0, _) :: _ => 1 | _ => 2 end)
       + 3 * match o with Ok _ => 0 | Err _ => 1 | Panic => 2 end
+  | XUaNs _ items o =>
+      6400 + match o with
+             | Ok (a, _) => (match uad_t a with None => 0 | Some (PKH _) => 1 | Some (SH _) => 2 end)
+                            + 3 * (match uad_unknown a with (3, _) :: _ => 1 | _ => 0 end)
+                            + 6 * (if is_some (uad_s a) then 1 else 0)
+             | Err _ => 30 | Panic => 31
+             end
   end.
